@@ -80,9 +80,6 @@ def flush (maxSend : Nat) (c : Conn) (o : SendOut) : FlushRes :=
       if sent = mv.length then ⟨{ c with buffer := rest }, some off, sent, none⟩
       else ⟨{ c with buffer := mv.drop sent :: rest }, some off, sent, none⟩
 
-/-- the bytes a flush actually put on the wire -/
-def FlushRes.wire (r : FlushRes) : Bytes := (r.offered.getD []).take r.accepted
-
 /-- all bytes still queued -/
 def pendingBytes (c : Conn) : Bytes := c.buffer.flatten
 
@@ -91,6 +88,9 @@ def pendingBytes (c : Conn) : Bytes := c.buffer.flatten
 def pending (c : Conn) : Nat := c.buffer.flatten.length + c.buffer.length
 
 end Conn
+
+/-- the bytes a flush actually put on the wire -/
+def FlushRes.wire (r : FlushRes) : Bytes := (r.offered.getD []).take r.accepted
 
 /-- `TcpConnection.recv`: `None` for an empty read, else the segment; exceptions
     pass through. -/
